@@ -179,6 +179,24 @@ func (e *Exec) rootInKnx() bool {
 }
 
 func (e *Exec) callStatic(fr *Frame, st State, fn *ssa.Function, args []Val, binds []Val, pos token.Pos) []Outcome {
+	switch fn.Name() {
+	case "verifAssert":
+		// lemma obligation (ghost code under the verif build tag)
+		st = e.oblige(st, fr.fn, "lemma", "", pos, args[0][0])
+		return []Outcome{{st: st}}
+	case "verifAssume":
+		st = st.assume(args[0][0])
+		if st.pcFalse() {
+			return nil
+		}
+		return []Outcome{{st: st}}
+	case "verifBytesEqual":
+		c := e.c
+		a, b := args[0], args[1]
+		k := c.Bound("k", BV(64))
+		body := c.Imp(c.Ult(k, a[1]), c.Eq(e.read(st.h[0], c.Add(a[0], k)), e.read(st.h[0], c.Add(b[0], k))))
+		return []Outcome{{st: st, ret: Val{c.And(c.Eq(a[1], b[1]), c.Forall(k, body))}}}
+	}
 	if e.rootInKnx() && fn.Pkg != nil && fn.Pkg.Pkg.Name() == "knxnet" {
 		name := fn.String()
 		if r := fn.Signature.Recv(); r != nil && envSocketMethods[fn.Name()] && (strings.Contains(name, "TunnelSocket") || strings.Contains(name, "RouterSocket")) {
